@@ -101,6 +101,13 @@ pub enum Op {
     SerialLow { cell: u64, res: i32, res2: i32 },
     OriginLow { theta: F, phi: F, origin: u8 },
     Quaternions,
+    /// State pump: pushes every descendant of `root` at `depth` levels below it (4^depth distinct
+    /// cells) through one function - f = 0 cell_to_lonlat, 1 cell_to_boundary(segments 1), 2
+    /// cell_to_parent, 3 deserialize + serialize, 4 lonlat_to_cell of the centre, 5 get_resolution +
+    /// u64_to_hex + hex_to_u64 - and returns the count and a digest. Its own outcome equals its
+    /// reference by construction; it exists to fill caches with tens of thousands of distinct
+    /// keys before ordinary calls probe the early ones.
+    Pump { f: u8, root: u64, depth: u8 },
 }
 
 #[derive(Clone, PartialEq, Eq, Hash, Debug, Serialize, Deserialize)]
@@ -278,6 +285,7 @@ impl Op {
             Op::SerialLow { .. } => "serialization_low",
             Op::OriginLow { .. } => "origin_low",
             Op::Quaternions => "quaternions_const",
+            Op::Pump { .. } => "pump_distinct_cells",
         }
     }
 
@@ -317,6 +325,7 @@ impl Op {
             Op::Forward { t: Target::Fresh, .. } | Op::Inverse { t: Target::Fresh, .. } | Op::CrsVertex { inst: None, .. } => 60,
             Op::SphTriShape { .. } | Op::PentagonShapeOps { .. } | Op::NormalizeLongitudes { .. } => 8,
             Op::OriginsDigest | Op::PentagonDigest => 3,
+            Op::Pump { depth, .. } => (1u32 << (2 * (*depth).min(10) as u32)) * 3,
             _ => 2,
         }
     }
@@ -331,7 +340,7 @@ impl Op {
     /// Calls that would hit a yield site hundreds of thousands of times (one per produced child
     /// id): executed with the calling thread's yield sites off.
     pub fn suppress_yields(&self) -> bool {
-        matches!(self, Op::CellToChildren { .. } | Op::Uncompact { .. }) && self.is_big()
+        matches!(self, Op::CellToChildren { .. } | Op::Uncompact { .. } | Op::Pump { .. }) && self.is_big()
     }
 
     /// Does the call go through the calling thread's projection memo?
@@ -709,6 +718,41 @@ fn exec_inner(op: &Op, env: &Env) -> Result<Vec<u64>, String> {
             let sp = Spherical::new(Radians::new_unchecked(theta.v()), Radians::new_unchecked(phi.v()));
             let o = &a5::core::origin::get_origins()[*origin as usize % 12];
             Ok(vec![a5::core::origin::is_nearest_origin(sp, o) as u64, b(a5::core::origin::haversine(sp, o.axis))])
+        }
+        Op::Pump { f, root, depth } => {
+            let r = a5::get_resolution(*root);
+            let kids = a5::cell_to_children(*root, Some(r + (*depth).min(9) as i32))?;
+            let mut h = crate::rng::H64::new();
+            for c in &kids {
+                match *f % 6 {
+                    0 => {
+                        let p = a5::cell_to_lonlat(*c)?;
+                        h.u(b(p.longitude()));
+                        h.u(b(p.latitude()));
+                    }
+                    1 => {
+                        let o = CellToBoundaryOptions { closed_ring: false, segments: Some(1) };
+                        for p in a5::cell_to_boundary(*c, Some(o))? {
+                            h.u(b(p.longitude()));
+                            h.u(b(p.latitude()));
+                        }
+                    }
+                    2 => h.u(a5::cell_to_parent(*c, None)?),
+                    3 => {
+                        let d = a5::core::serialization::deserialize(*c)?;
+                        h.u(a5::core::serialization::serialize(&d)?);
+                    }
+                    4 => {
+                        let p = a5::cell_to_lonlat(*c)?;
+                        h.u(a5::lonlat_to_cell(p, r + (*depth).min(9) as i32)?);
+                    }
+                    _ => {
+                        h.u(a5::get_resolution(*c) as u64);
+                        h.u(a5::hex_to_u64(&a5::u64_to_hex(*c))?);
+                    }
+                }
+            }
+            Ok(vec![kids.len() as u64, h.0])
         }
         Op::Quaternions => {
             let mut v = Vec::new();
